@@ -1,6 +1,6 @@
 (* C13 — a hot node killed at any instant resumes without losing messages or operations. *)
 From Coq Require Import String List NArith ZArith Bool.
-Require Import Fsm.EngineDefs Fsm.Types Fsm.Actions Fsm.Provider Node.Types Node.Process Node.Crash Node.CrashReplay.
+Require Import Fsm.EngineDefs Fsm.Types Fsm.Actions Fsm.Provider Node.Types Node.Process Node.Crash Node.CrashReplay Node.CrashResult.
 Require Node.Local.
 Require Board.File Gen.Skeletons.
 Import ListNotations.
@@ -73,6 +73,19 @@ Theorem C13_crash_before_round_write_partial :
   crash_after st k r = ROk h u -> ns_rounds (h_st h) = ns_rounds st.
 Proof. exact @crash_before_round_write_keeps_rounds. Qed.
 Print Assumptions C13_crash_before_round_write_partial.
+
+(* 4. killed inside the handling of an operation result (the answer's messages are posted one by one,
+   then the operation is retired): wherever the process dies, the operation is exactly as pending as it
+   was - the same answer will be accepted again - or every message of the answer is on the board.  An
+   answer is never lost; at worst a prefix of it is posted twice *)
+Theorem C13_killed_inside_result_handling :
+  forall st x h k hc u,
+  execute_operation {| h_st := st; h_tr := [] |} x = ROk h tt -> ox_event x <> ev_processed ->
+  crash_after st k (execute_operation {| h_st := st; h_tr := [] |} x) = ROk hc u ->
+  (ns_ops (h_st hc) = ns_ops st /\ ns_deleted (h_st hc) = ns_deleted st) \/
+  ns_board (h_st hc) = ns_board st ++ map (out_of (ns_user st)) (ox_msgs x).
+Proof. exact killed_inside_execute. Qed.
+Print Assumptions C13_killed_inside_result_handling.
 
 (* a clean stop/start changes nothing durable (operations, tombstones, rounds, signatures, board) *)
 Theorem C13_restart_keeps_durable_state :
